@@ -228,7 +228,19 @@ def validate_programs(work, driver, progs, label, chunks=None, cfg="TraceApi.cfg
     buckets = [b for b in buckets if b]
     traces = []
     for i, b in enumerate(buckets):
-        traces.append(run_driver(driver, b, work, "%s-%d" % (label, i)))
+        warm = [p for p in b if not p.get("cold")]
+        cold = [p for p in b if p.get("cold")]
+        tr = run_driver(driver, warm, work, "%s-%d" % (label, i)) if warm else None
+        # "cold" programs run in a process of their own each (lazily built tables, pools and caches are in their initial state)
+        for j, p in enumerate(cold):
+            tc = run_driver(driver, [p], work, "%s-%d-cold%d" % (label, i, j))
+            if tr is None:
+                tr = tc
+            else:
+                with open(tr, "a") as f:
+                    f.write(open(tc).read())
+                os.remove(tc)
+        traces.append(tr)
     byid = {p["id"]: p for p in progs}
     fails = []
     tot = {"programs": len(progs), "events": 0, "conjuncts": 0, "states": 0, "transitions": 0, "traces": len(traces)}
